@@ -1,5 +1,6 @@
 (* C05 driver.  One case per line:
-     <id> A<szA> B<szB> s<script|-> <op> <args> ...  [@@ <tokens printed by the implementation harness>]
+     <id> <A|F|I><szA> B<szB> s<script|-> <op> <args> ...  [@@ <tokens printed by the implementation harness>]
+   first letter = shape of both harness traits: A init+fini, F fini only, I init only (L<type>:<size> = library type)
    prints "M <id> tok..."  mechanism model: <out>|<events>|<h0>;<h1>;<h2> per operation (+ 3 final releases + end token)
           "S <id> tok..."  verdict of the specification monitor (coq/C05/TypedSpec.v) on the log the
                            IMPLEMENTATION printed: "ok" or "V:<violation>" per operation. *)
@@ -88,7 +89,7 @@ let parse_event s =
   | 'x' -> if rest = "?" then EFiniBad None else EFiniBad (Some (num rest))
   | _ -> failwith "event"
 let parse_slot s =
-  if s = "?" then SRaw else if s.[0] = 'd' then SDead (nat_of_int (int_of_string (String.sub s 1 (String.length s - 1))))
+  if s = "?" || s = "z" then SRaw else if s.[0] = 'd' then SDead (nat_of_int (int_of_string (String.sub s 1 (String.length s - 1))))
   else STok (nat_of_int (int_of_string s))
 let parse_obs tok =
   try
@@ -139,8 +140,11 @@ let () =
             (match String.split_on_char ':' (sub a) with [ty; n] -> Some ty, n | _ -> failwith "header")
           else None, sub a in
         lib_mode := lib <> None;
+        let shape = match a.[0] with 'F' -> ShFini | 'I' -> ShInit | _ -> ShFull in
         let env = { eszA = ni asz; eszB = ni (sub b); ehdr = nat_of_int 64; epage = nat_of_int 128;
-                    ecopyfail = (lib = Some "cmd") } in
+                    ecopyfail = (lib = Some "cmd"); eshape = shape } in
+        (* traits without finaliser: the abandon steps of the model are ghosts, the implementation prints nothing *)
+        let visible ev = match ev with EFini _ -> shape <> ShInit | _ -> true in
         let script = if sub s = "-" then [] else List.init (String.length s - 1) (fun i -> s.[i+1] = '1') in
         let ops = parse_ops ops @ release_all (nat_of_int nh) in
         let w0 = init_world (nat_of_int nh) script in
@@ -151,7 +155,7 @@ let () =
             | Ok (w, o) ->
               let lg = w.wctx.clog in
               let n = List.length lg in
-              let evs = List.rev (take (n - !prevlen) lg) in
+              let evs = List.filter visible (List.rev (take (n - !prevlen) lg)) in
               prevlen := n;
               Printf.sprintf "%s|%s|%s" (show_out o) (if !lib_mode then "*" else join "," (List.map show_event evs)) (show_state env w)
             | _ -> faulted := true; "F") results in
@@ -168,6 +172,7 @@ let () =
            let obs, e = split it in
            let verdicts = if !lib_mode
              then List.map (fun t -> if String.length t > 0 && t.[0] = 'F' then Some VFault else None) obs
+             else if shape = ShInit then monitor_nf mon0 (List.map parse_obs obs)
              else monitor mon0 (List.map parse_obs obs) in
            let vs = List.map (function None -> "ok" | Some v -> show_viol v) verdicts in
            let all_ok = List.for_all (fun v -> v = "ok") vs && List.length vs = List.length obs in
